@@ -1,0 +1,21 @@
+//go:build verif
+
+// Copyright JAMF Software, LLC
+
+package logreader
+
+// VerifIndices returns the indices currently cached for a shard, in buffer order.
+// Verification hook, compiled only with the verif build tag.
+func (l *ShardCache) VerifIndices(shardID uint64) []uint64 {
+	sh, ok := l.shardCache.Load(shardID)
+	if !ok || sh == nil {
+		return nil
+	}
+	sh.mtx.Lock()
+	defer sh.mtx.Unlock()
+	out := make([]uint64, 0, len(sh.buffer))
+	for _, e := range sh.buffer {
+		out = append(out, e.Index)
+	}
+	return out
+}
